@@ -86,7 +86,23 @@ fn bit_of(c: &RanksCase, i: usize, total: usize) -> bool {
 /// Build the logical bits and the BitVec carrying them with the requested tail state.
 fn build(c: &RanksCase) -> (Vec<bool>, BitVec<Vec<usize>>, u64) {
     let len = c.len;
-    let mut bits: Vec<bool> = (0..len).map(|i| bit_of(c, i, len)).collect();
+    let mut bits: Vec<bool> = if c.shape == "gapmix" || c.shape == "gapmix0" {
+        // ones (gapmix) or zeros (gapmix0) separated by gaps drawn from {1, 2, 2^16-1, 2^16, 2^16+1}: inventory
+        // spans land exactly on the 16-bit span threshold
+        let fill = c.shape == "gapmix0";
+        let mut v = vec![fill; len];
+        let mut pos = (c.seed as usize >> 20) % 97;
+        let mut k = 0u64;
+        while pos < len {
+            v[pos] = !fill;
+            let mut x = c.seed ^ k.wrapping_mul(0x9E3779B97F4A7C15);
+            k += 1;
+            pos += [1usize, 1, 2, 65535, 65536, 65536, 65536, 65537, 65537][(splitmix64(&mut x) % 9) as usize];
+        }
+        v
+    } else {
+        (0..len).map(|i| bit_of(c, i, len)).collect()
+    };
     if c.shape == "quantum" && len > 0 {
         // make the number of ones an exact multiple of a power of two, with a ragged tail
         let q = 1usize << (c.dens % 10);
@@ -505,6 +521,14 @@ impl World for RankselWorld {
         } else {
             *rng.pick(&["uniform", "uniform", "dense_sparse", "sparse_dense", "blocks", "words", "few", "quantum", "ones", "zeros"])
         };
+        // the adaptive selectors get a share of vectors whose gaps sit exactly on the span thresholds
+        let adaptive = structure.starts_with("sa") || structure.starts_with("sz") || structure.contains("(sa") || structure.contains("(sz");
+        let (len, shape) = if adaptive && rng.chance(1, 8) {
+            (rng.urange(140_000, 900_000), if structure.starts_with("sz") && rng.chance(2, 3) { "gapmix0" } else { "gapmix" })
+        } else {
+            (len, shape)
+        };
+        let small_inv = shape.starts_with("gapmix");
         RanksCase {
             len,
             shape: shape.into(),
@@ -512,7 +536,7 @@ impl World for RankselWorld {
             seed: rng.next_u64(),
             tail: rng.pick(&["clean", "clean", "pop", "pop", "raw", "raw_extra"]).to_string(),
             structure,
-            p1: rng.usize_below(1 << 16),
+            p1: if small_inv { rng.usize_below(4) * 17 + rng.usize_below(4) } else { rng.usize_below(1 << 16) },
             p2: rng.usize_below(1 << 16),
             p3: rng.usize_below(1 << 16),
         }
